@@ -3,11 +3,6 @@ import MW.Model.Proto
 namespace MW.Lemmas.Proto
 open MW.Model.Proto
 
-/-- between a completed suspend() and the matching resume() -/
-def window : WPc → Bool
-  | .impCommit | .impRes _ | .rem1Commit | .rem1Res _ | .rem2Commit | .rem2Res _ => true
-  | _ => false
-
 /-- what the queue may hold (plus the task in the worker's hands): below the busy mark while an API call
     sits between its IsWorkerBusy check and its push, at most the capacity otherwise -/
 def bound (c : Cfg) : APc → Nat
